@@ -121,3 +121,18 @@ func SetCurCall(t int, call int32) {
 		curCall[t] = call
 	}
 }
+
+// State returns the stream position and chunk index (for an exact re-run of
+// what a consumer will see from here on).
+func (r *Reader) State() (pos uint64, cpos int) {
+	if r.Shared {
+		r.mu.Lock()
+		defer r.mu.Unlock()
+	}
+	return r.Pos, r.cpos
+}
+
+// CloneAt returns a private reader over the same stream and chunking, positioned at the given state.
+func (r *Reader) CloneAt(pos uint64, cpos int) *Reader {
+	return &Reader{Kind: r.Kind, Seed: r.Seed, Chunks: r.Chunks, cpos: cpos, Pos: pos}
+}
